@@ -63,6 +63,7 @@ ASSUMPTIONS = [
     "model time is whole milliseconds; the harness moves the clock in multiples of 1/8 s (exact in binary floating point)",
 ]
 
+KNOWN_SIGNATURE = "should_sign:attested-twice-after-restart"
 PAD = b"SHA-1" + b"\x00" * 7
 SIGLEN = 64
 TOKSZ = 64 + SIGLEN
@@ -832,7 +833,7 @@ class Gen:
         elif toks:
             target = rng.choice(toks)
         tv = rng.choice(["ok"] * 6 + ["foreign-signed", "garbage", "orphan", "truncate", "shuffle", "dup", "forged-link",
-                                      "forged-link"])
+                                      "forged-link", "other-subjects-token"])
         w.ctx.count("craft:token-variant:" + tv)
         if tv == "forged-link" and toks:
             # one token of the chain keeps its place (predecessor pointer and content hash) but not its signature; its
@@ -840,13 +841,26 @@ class Gen:
             toks, target = self.forge_link(p, toks, target)
             if rng.random() < 0.6:
                 toks = list(reversed(toks))          # children before parents: they wait for their predecessor
+        bad = None
         if tv == "foreign-signed":
             q = rng.choice([k for k in w.sk if k != p])
-            toks.append(mk_token(w, q, w.genesis[p], self.rhash().ljust(32, b"\0")))
+            bad = mk_token(w, q, w.genesis[p], self.rhash().ljust(32, b"\0"))
+            toks.append(bad)
         elif tv == "garbage":
             toks.insert(rng.randint(0, len(toks)), rng.randbytes(TOKSZ))
         elif tv == "orphan":
-            toks.append(mk_token(w, p, rng.randbytes(32), self.rhash().ljust(32, b"\0")))
+            bad = mk_token(w, p, rng.randbytes(32), self.rhash().ljust(32, b"\0"))
+            toks.append(bad)
+        elif tv == "other-subjects-token":
+            # a genuine token of another subject's chain (the verifier may well have it in that subject's tree)
+            others = [t.get_plaintext_signed() for k in w.nodes if k != p for t in w.ov[k].token_chain]
+            if others:
+                bad = rng.choice(others)
+                if rng.random() < 0.5:
+                    toks.append(bad)
+        if bad is not None and rng.random() < 0.6:
+            target = bad                        # the metadata made below points at the token that must not count
+            w.ctx.count("craft:metadata-points-at:" + tv)
         elif tv == "shuffle":
             rng.shuffle(toks)
         elif tv == "dup" and toks:
@@ -1104,6 +1118,35 @@ class Gen:
             for e in w.craft(a, v, pl, "stale and fresh credential"):
                 w.queue.remove(e)
                 w.ev_deliver(e)
+        elif kind == "bad-token-then-restart":
+            # metadata of a points at a token that is NOT on a verified chain of a (a waiting orphan of a, or a token of
+            # b's chain that v holds in b's tree); v restarts with a NEW manager (trees are reloaded from the Tokens
+            # table), the user registers again, and a nudges v with an empty token list
+            which = rng.choice(["orphan", "orphan", "other-subjects-token"])
+            w.ctx.count("bad-token-then-restart:" + which)
+            w.ev_reg(v, h1, name, a, None)
+            w.ev_selfadv(a, h2, name)
+            real = [t.get_plaintext_signed() for t in w.ov[a].token_chain]
+            if which == "orphan":
+                badtok = mk_token(w, a, rng.randbytes(32), h1)
+                toks_ = real + [badtok]
+            else:
+                w.ev_reg(v, h1, name, b, None)
+                w.ev_advert(b, v, h1, name, None)
+                self.flush()
+                badtok = w.ov[b].token_chain[-1].get_plaintext_signed()
+                toks_ = real
+            md = mk_metadata(w, a, sha3(badtok), self.json_variant(name, None, "ok"))
+            w.trace.append({"op": "opener", "kind": kind, "which": which})
+            for e in w.craft(a, v, w.P.DisclosePayload(frame_md([md]), b"".join(toks_), b"", b""), "metadata over a bad token"):
+                w.queue.remove(e)
+                w.ev_deliver(e)
+            w.ev_restart(v, keep=False)
+            w.ev_reg(v, h1, name, a, None)
+            for pl in (w.P.MissingResponsePayload(b""), w.P.DisclosePayload(frame_md([md]), b"".join(real), b"", b"")):
+                for e in w.craft(a, v, pl, "nudge after restart"):
+                    w.queue.remove(e)
+                    w.ev_deliver(e)
         elif kind == "forged-out-of-order":
             # the subject's chain arrives out of order and one link of it is not signed by the subject: first the later
             # tokens (they wait for their predecessor) with properly signed metadata, then the earlier ones
@@ -1340,7 +1383,8 @@ class Gen:
 
 OPENERS = ["cross-subject", "expiry", "third-party-first", "replay", "long-chain", "sha1", "fixed-metadata",
            "wrong-name", "tainted", "restart", "stale-plus-fresh", "orphan-flood",
-           "unserialisable-registration", "forged-out-of-order", "none"]
+           "unserialisable-registration", "forged-out-of-order",
+           "bad-token-then-restart", "none"]
 
 
 async def run_world(ctx: Ctx, loop, use_model: bool, opener: str, n_events: int, world_seed: int):
@@ -1403,6 +1447,8 @@ def run_worlds(ctx: Ctx, n_worlds: int, use_model: bool):
                 compare(ctx, w, replies)
             ctx.case(hashlib.sha1("\n".join(w.lines).encode()).hexdigest(), w.nontrivial)
             ctx.count("world:events", len(w.trace))
+            if ctx.searching and [f for f in ctx.failures if f["signature"] != KNOWN_SIGNATURE]:
+                break
             if len(ctx.failures) >= 200 or len(ctx.disagreements) >= 200:
                 ctx.extra["stopped_early"] = f"after {i + 1} of {n_worlds} worlds: failure/disagreement buffer full"
                 break
@@ -1454,7 +1500,8 @@ def run_matrix(ctx: Ctx, use_model: bool):
     logging.disable(logging.CRITICAL)
     loop = vclock.new_loop()
     try:
-        combos = itertools.product([False, True], [True, False, (True, 1), (1, 1.0), (1, 1)], [None, {}, {"a": "b"}, {"a": 1}],
+        combos = itertools.product([False, True], [True, False, (True, 1), (1, 1.0), (1, 1)] if ctx.thorough() or ctx.searching else [True, False, (True, 1)],
+                                   [None, {}, {"a": "b"}, {"a": 1}],
                                    [None, {"a": "b"}, {"a": "c"}, {"a": True}],
                                    [0, 300, 300.125, 301], [False, True] if ctx.thorough() or ctx.searching else [False])
         for i, combo in enumerate(combos):
@@ -1484,8 +1531,10 @@ def run(ctx: Ctx):
 
 
 def search(ctx: Ctx, reason: str):
+    # bounded: a failing quick run has to end within ~3 minutes; stop at the first new failing input
     run_matrix(ctx, False)
-    run_worlds(ctx, 600, False)
+    if not [f for f in ctx.failures if f["signature"] != KNOWN_SIGNATURE]:
+        run_worlds(ctx, 300, False)
 
 
 def replay(ctx: Ctx, rec: dict):
